@@ -1813,6 +1813,8 @@ impl WriteTransaction {
         let page_allocator = self.page_allocator();
         while !freed_pages.is_empty() {
             let chunk_size = 400;
+            #[cfg(redb_verif)]
+            let chunk_size = crate::verif_knobs::freed_pages_chunk_size(chunk_size);
             let buffer_size = PageList::required_bytes(chunk_size);
             let key = TransactionIdWithPagination {
                 transaction_id: transaction_id.raw_id(),
@@ -1914,6 +1916,8 @@ impl WriteTransaction {
         let mut pagination_counter = 0;
         while !pages.is_empty() {
             let chunk_size = 400;
+            #[cfg(redb_verif)]
+            let chunk_size = crate::verif_knobs::freed_pages_chunk_size(chunk_size);
             let buffer_size = PageList::required_bytes(chunk_size);
             let key = TransactionIdWithPagination {
                 transaction_id: transaction_id.raw_id(),
